@@ -470,8 +470,40 @@ def scan_command_replies(src_root, ex: Explorer):
     ex.run(path, 'command-replies')
 
 
+def prove_delivery_relies(src_root, ex: Explorer):
+    """"Completes with the FIRST incoming message that matches" presupposes that messages reach on_message_received in the order they
+    arrived and one at a time: the reader loop awaits the callback of a message before it reads the next (C02.reader_loop.*), discharged
+    here as well.  And a pending request is touched by matching messages and by its own timeout only: the CLOSED handler of a peer
+    connection leaves the waiters for that peer alone (the answer may arrive over another connection; otherwise the caller's own
+    timeout ends the wait with TimeoutError, C12.wait_for_*)."""
+    from contracts import C02
+
+    def closed(ctx: Ctx):
+        it = mk(src_root, ctx)
+        net, log = mk_network(it, ctx)
+        conn = Obj(cls(it, CONN, 'PeerConnection'))
+        conn.attrs.update(username='bob', connection_type='P')
+        f = new(it, NET, 'ExpectedResponse', connection_class=cls(it, CONN, 'PeerConnection'),
+                message_class=cls(it, 'protocol.messages', 'PeerSharesReply.Request'), peer='bob', fields={})
+        other = new(it, NET, 'ExpectedResponse', connection_class=cls(it, CONN, 'PeerConnection'),
+                    message_class=cls(it, 'protocol.messages', 'PeerSharesReply.Request'), peer='eve', fields={})
+        net.attrs['_expected_response_futures'] = [f, other]
+        net.attrs['peer_connections'] = [conn]
+        run(it, it.getattr(net, '_on_peer_connection_state_changed'), enum(it, CONN, 'ConnectionState', 'CLOSED'), conn)
+        fut = f.ghost['future']
+        ctx.prove('C12.closed.leaves-waiters', not fut.cancel_requested and fut.done is False and net.attrs['_expected_response_futures'] == [f, other]
+                  and not other.ghost['future'].cancel_requested,
+                  'closing the last connection of a peer cancelled / removed the requests waiting for that peer: the callers get CancelledError '
+                  'instead of the reply over a new connection or their own timeout')
+    ex.run(closed, 'closed-leaves-waiters')
+    C02.prove_reader_loop(src_root, ex)
+    for ob in ex.obligations:
+        if ob.name.startswith('C02.'):
+            ob.name = 'C12.delivery-in-order.' + ob.name[4:]
+
+
 def items(src_root, tier):
-    return [('commands', None), ('negotiation', None), ('matches', None), ('omr', None), ('wait', 'server'), ('wait', 'peer'), ('registration', None), ('execute', None)]
+    return [('delivery', None), ('commands', None), ('negotiation', None), ('matches', None), ('omr', None), ('wait', 'server'), ('wait', 'peer'), ('registration', None), ('execute', None)]
 
 
 def run_item(src_root, item, tier):
@@ -493,6 +525,8 @@ def run_item(src_root, item, tier):
             prove_execute(src_root, ex)
         elif kind == 'commands':
             scan_command_replies(src_root, ex)
+        elif kind == 'delivery':
+            prove_delivery_relies(src_root, ex)
     except Unsupported as e:
         res.errors.append(f'{kind}:{arg}: unsupported: {e}')
     collect(res, ex)
